@@ -89,6 +89,8 @@ enum Mix {
     Pooled,
     /// all-repair set delivered one packet per decode() call (the answer after the last packet counts)
     Incremental,
+    /// all-repair set taken from the very top of the 24-bit ESI range (ISI = ESI + K' - K exceeds 2^24 - 1)
+    TopEsis,
 }
 fn mix_name(m: Mix) -> &'static str {
     match m {
@@ -97,6 +99,7 @@ fn mix_name(m: Mix) -> &'static str {
         Mix::FewLost => "1-3 lost source symbols",
         Mix::Pooled => "all three mixes pooled",
         Mix::Incremental => "all-repair, delivered packet by packet (one decode call per symbol)",
+        Mix::TopEsis => "all-repair, ESIs from the last 2K+64 ids of the 24-bit range incl. 2^24-1",
     }
 }
 
@@ -113,11 +116,12 @@ struct Stratum {
 const BOUNDS: [f64; 3] = [1e-2, 1e-4, 1e-5];
 const ALPHA: f64 = 1e-9;
 
-fn trial(rng: &mut Rng, enc: &SourceBlockEncoder, src: &[EncodingPacket], cfg: &Oti, K: usize, h: usize, mix: Mix) -> (bool, HashSet<u32>) {
+/// Err = the library panicked while producing or decoding the symbols of this set
+fn trial(rng: &mut Rng, enc: &SourceBlockEncoder, src: &[EncodingPacket], cfg: &Oti, K: usize, h: usize, mix: Mix) -> (Result<bool, String>, HashSet<u32>) {
     let mix = if mix == Mix::Pooled { [Mix::AllRepair, Mix::RandomSurvivors, Mix::FewLost][rng.below(3) as usize] } else { mix };
     let incremental = mix == Mix::Incremental;
     let kept = match mix {
-        Mix::AllRepair | Mix::Incremental => 0,
+        Mix::AllRepair | Mix::Incremental | Mix::TopEsis => 0,
         Mix::RandomSurvivors => rng.below(K as u64) as usize,
         Mix::FewLost => K.saturating_sub(rng.range(1, 3) as usize),
         Mix::Pooled => unreachable!(),
@@ -134,21 +138,33 @@ fn trial(rng: &mut Rng, enc: &SourceBlockEncoder, src: &[EncodingPacket], cfg: &
             pk.push(src[idx[i] as usize].clone());
         }
     }
+    let mut esis: Vec<u32> = vec![];
     while set.len() < K + h {
-        let e = rng.range(K as u64, (1 << 24) - 1) as u32;
+        // TopEsis: the last 2K+64 encoding symbol ids of the 24-bit range (always containing 2^24-1 .. 2^24-3)
+        let e = if mix == Mix::TopEsis {
+            if esis.len() < 3 { (1 << 24) - 1 - esis.len() as u32 } else { (1 << 24) - 1 - rng.below(2 * K as u64 + 64) as u32 }
+        } else {
+            rng.range(K as u64, (1 << 24) - 1) as u32
+        };
         if set.insert(e) {
+            esis.push(e);
+        }
+    }
+    let r = guarded(|| {
+        for &e in &esis {
             pk.push(enc.repair_packets(e - K as u32, 1).pop().unwrap());
         }
-    }
-    let mut d = SourceBlockDecoder::new(0, cfg, K as u64);
-    if incremental {
-        let mut last = false;
-        for p in pk {
-            last = last || d.decode(std::iter::once(p)).is_some();
+        let mut d = SourceBlockDecoder::new(0, cfg, K as u64);
+        if incremental {
+            let mut last = false;
+            for p in pk {
+                last = last || d.decode(std::iter::once(p)).is_some();
+            }
+            return last;
         }
-        return (last, set);
-    }
-    (d.decode(pk).is_some(), set)
+        d.decode(pk).is_some()
+    });
+    (r, set)
 }
 
 pub fn run(ctx: &Ctx) -> i32 {
@@ -164,10 +180,19 @@ pub fn run(ctx: &Ctx) -> i32 {
             let set: HashSet<u32> = c.us("esis").iter().map(|&e| e as u32).collect();
             let data: Vec<u8> = (0..K).map(|i| (i * 37 + 11) as u8).collect();
             let cfg = Oti::new(K as u64, 1, 1, 1, 1);
-            let enc = SourceBlockEncoder::new(0, &cfg, &data);
-            let src = enc.source_packets();
-            let pk: Vec<EncodingPacket> = set.iter().map(|&e| if (e as usize) < K { src[e as usize].clone() } else { enc.repair_packets(e - K as u32, 1).pop().unwrap() }).collect();
-            let got = SourceBlockDecoder::new(0, &cfg, K as u64).decode(pk).is_some();
+            let got = guarded(|| {
+                let enc = SourceBlockEncoder::new(0, &cfg, &data);
+                let src = enc.source_packets();
+                let pk: Vec<EncodingPacket> = set.iter().map(|&e| if (e as usize) < K { src[e as usize].clone() } else { enc.repair_packets(e - K as u32, 1).pop().unwrap() }).collect();
+                SourceBlockDecoder::new(0, &cfg, K as u64).decode(pk).is_some()
+            });
+            let got = match got {
+                Ok(b) => b,
+                Err(m) => {
+                    ctx.violation(format!("C03 panic K={K} replay"), format!("K={K}: producing / decoding the recorded set panicked: {}", short(&m, 160)), c.clone());
+                    return ctx.finish("replay of one recorded received set", &[], vec![]);
+                }
+            };
             let (_, fr, l) = oracle(&gf, K, &set);
             if !got && fr == l {
                 ctx.violation(format!("C03 lost-decode K={K} replay"), format!("K={K}: recorded set has full rank but decoding fails"), c.clone());
@@ -209,6 +234,19 @@ pub fn run(ctx: &Ctx) -> i32 {
         add(&mut strata, 10, 1, Mix::Pooled, 8_000_000);
         add(&mut strata, 200, 1, Mix::AllRepair, 1_000_000);
     }
+    // overheads beyond 2: every further symbol must keep lowering the failure odds, in particular across
+    // h = H (from K+H symbols on a batch decode first tries the GF(2)-only solve and must fall back to the
+    // full solve when that fails). Decided on the pooled count (see below); H = 10 for all these K.
+    for &K in &[10usize, 26, 50, 101] {
+        for &h in &[3usize, 6, 9, 10, 11, 12, 14, 20] {
+            add(&mut strata, K, h, Mix::AllRepair, if quick { 12_000 } else { 150_000 });
+        }
+    }
+    // the top of the 24-bit ESI range on blocks with padding symbols (K < K'): ISIs beyond 2^24 - 1
+    for &K in &[1usize, 5, 11, 13, 27, 50, 101] {
+        add(&mut strata, K, 0, Mix::TopEsis, if quick { 20_000 } else { 200_000 });
+        add(&mut strata, K, 2, Mix::TopEsis, if quick { 20_000 } else { 200_000 });
+    }
     // work items: (stratum, chunk)
     let chunk = 5000u64;
     let mut items: Vec<(usize, u64)> = vec![];
@@ -236,6 +274,19 @@ pub fn run(ctx: &Ctx) -> i32 {
         let mut hs: HashSet<u64> = HashSet::new();
         for _ in 0..todo {
             let (ok, set) = trial(&mut rng, &enc, &src, &cfg, K, s.h, s.mix);
+            let ok = match ok {
+                Ok(b) => b,
+                Err(m) => {
+                    let mut v: Vec<u32> = set.iter().copied().collect();
+                    v.sort_unstable();
+                    ctx.violation(
+                        format!("C03 panic K={K} h={} {}", s.h, short(&m, 60)),
+                        format!("K={K}, {} distinct symbols ({}): producing / decoding this set panicked instead of answering: {}", K + s.h, mix_name(s.mix), short(&m, 160)),
+                        J::obj(vec![("K", J::i(K)), ("esis", J::A(v.iter().map(|&e| J::i(e)).collect()))]),
+                    );
+                    false
+                }
+            };
             // distinctness of the random subsets is measured on a 1/64 sample of the trials
             if rng.below(64) == 0 {
                 let mut h = H64::new();
@@ -279,9 +330,28 @@ pub fn run(ctx: &Ctx) -> i32 {
     // ---- decisions ----
     let mut table = vec![];
     let mut total = 0u64;
+    let (mut pooled_n, mut pooled_k) = (0u64, 0u64);
     for s in &strata {
         let (n, k) = (s.done.load(Relaxed), s.fails.load(Relaxed));
         total += n;
+        if s.h >= 3 || s.mix == Mix::TopEsis {
+            // decided on the pooled count below (h >= 3) / by the panic and rank oracles only (TopEsis:
+            // a fixed corner of the id space, not a draw from the advertised distribution)
+            if s.h >= 3 {
+                pooled_n += n;
+                pooled_k += k;
+            }
+            table.push(J::obj(vec![
+                ("K", J::i(s.K)),
+                ("overhead_h", J::i(s.h)),
+                ("mix", J::s(mix_name(s.mix))),
+                ("trials", J::i(n)),
+                ("failures", J::i(k)),
+                ("failures_with_full_rank_(solver_lost_a_decode)", J::i(s.lost_decodes.load(Relaxed))),
+                ("verdict", J::s(if s.h >= 3 { "pooled with the other h >= 3 strata" } else { "reported; decided by the panic and rank oracles" })),
+            ]));
+            continue;
+        }
         let bound = BOUNDS[s.h];
         let phat = k as f64 / n as f64;
         let lo = cp_lower(n, k, ALPHA);
@@ -312,6 +382,23 @@ pub fn run(ctx: &Ctx) -> i32 {
             ("failures_with_full_rank_(solver_lost_a_decode)", J::i(s.lost_decodes.load(Relaxed))),
             ("verdict", J::s(verdict)),
         ]));
+    }
+    // pooled decision for overheads >= 3: the rate must not exceed the bound advertised for h = 2
+    {
+        let (n, k) = (pooled_n, pooled_k);
+        let bound = BOUNDS[2];
+        let phat = k as f64 / n.max(1) as f64;
+        let lo = cp_lower(n.max(1), k, ALPHA);
+        if lo > bound {
+            ctx.violation(
+                "C03 rate h>=3 pooled".to_string(),
+                format!("overheads 3..20 pooled over K in {{10,26,50,101}}: {k} failures in {n} trials (rate {:.3e}); even the 1-1e-9 lower bound {:.3e} exceeds the {:.0e} advertised for two extra symbols, so more symbols made decoding less likely", phat, lo, bound),
+                J::obj(vec![("n", J::i(n)), ("failures", J::i(k))]),
+            );
+        } else if phat > bound {
+            ctx.inconclusive(format!("h>=3 pooled: rate {:.3e} above {:.0e} but the lower confidence bound {:.3e} is not", phat, bound, lo));
+        }
+        ctx.cov("overhead_3_to_20_pooled", J::obj(vec![("trials", J::i(n)), ("failures", J::i(k)), ("bound", J::F(bound))]));
     }
     // ratio between consecutive overheads (reported; flagged only if certainly far below 256)
     let mut ratios = vec![];
